@@ -14,6 +14,7 @@ func init() {
 	verifKinds["c08.trie"] = verifC08Trie
 	verifKinds["c08.accept"] = verifC08Accept
 	verifKinds["c08.checks"] = verifC08Checks
+	verifKinds["c08.checks2"] = verifC08Checks2
 }
 
 // (patterns) (names) -> ((match bools) (unmatched, sorted) matchCount)
@@ -146,5 +147,97 @@ func verifC08Checks(args []vsx) vsx {
 		return vS("ambiguous")
 	default:
 		return vL(vS("bad-case"), vS(err.Error())) // not an error of the validation block: ill-formed scenario
+	}
+}
+
+// (failing) (flaky) (run) (skip) ((suite proto (simple names)) ...) refClient refServer
+// -> error kind of the validation block of run(), with gRPC-peer permutations in the library:
+// proto 1 = Connect over HTTP/1.1, 2 = gRPC over h2c, 3 = gRPC-Web over h2c.  refClient=0 /
+// refServer=0 put a (non-existent) command under test on that side, so that run() derives the
+// mode and the set of extra permutations the way the CLI does.  The generator's final "**" skip
+// pattern keeps every server from starting; a run that gets past the validation block either
+// returns results or fails to start the client under test - both mean "validation passed".
+func verifC08Checks2(args []vsx) vsx {
+	failing, flaky, runP, skipP := args[0].strs(), args[1].strs(), args[2].strs(), args[3].strs()
+	refClient, refServer := args[5].i != 0, args[6].i != 0
+	suites := map[string]*conformancev1.TestSuite{}
+	cfgSet := map[configCase]struct{}{}
+	for _, sd := range args[4].l {
+		name, proto := sd.l[0].str(), sd.l[1].i
+		suite := &conformancev1.TestSuite{
+			Name:                 name,
+			RelevantCodecs:       []conformancev1.Codec{conformancev1.Codec_CODEC_PROTO},
+			RelevantCompressions: []conformancev1.Compression{conformancev1.Compression_COMPRESSION_IDENTITY},
+		}
+		cfg := configCase{
+			Codec:       conformancev1.Codec_CODEC_PROTO,
+			Compression: conformancev1.Compression_COMPRESSION_IDENTITY,
+			StreamType:  conformancev1.StreamType_STREAM_TYPE_UNARY,
+		}
+		switch proto {
+		case 1:
+			cfg.Protocol, cfg.Version = conformancev1.Protocol_PROTOCOL_CONNECT, conformancev1.HTTPVersion_HTTP_VERSION_1
+		case 2:
+			cfg.Protocol, cfg.Version = conformancev1.Protocol_PROTOCOL_GRPC, conformancev1.HTTPVersion_HTTP_VERSION_2
+		case 3:
+			cfg.Protocol, cfg.Version = conformancev1.Protocol_PROTOCOL_GRPC_WEB, conformancev1.HTTPVersion_HTTP_VERSION_2
+		default:
+			return vL(vS("bad-case"))
+		}
+		suite.RelevantProtocols = []conformancev1.Protocol{cfg.Protocol}
+		suite.RelevantHttpVersions = []conformancev1.HTTPVersion{cfg.Version}
+		cfgSet[cfg] = struct{}{}
+		for _, n := range sd.l[2].strs() {
+			suite.TestCases = append(suite.TestCases, &conformancev1.TestCase{
+				Request: &conformancev1.ClientCompatRequest{
+					TestName:   n,
+					StreamType: conformancev1.StreamType_STREAM_TYPE_UNARY,
+				},
+				ExpectedResponse: &conformancev1.ClientResponseResult{},
+			})
+		}
+		if _, dup := suites[name+".yaml"]; dup {
+			return vL(vS("bad-case"))
+		}
+		suites[name+".yaml"] = suite
+	}
+	cfg := make([]configCase, 0, len(cfgSet))
+	for c := range cfgSet {
+		cfg = append(cfg, c)
+	}
+	knownFailing := parsePatterns(failing)
+	if knownFailing == nil {
+		knownFailing = &testTrie{}
+	}
+	knownFlaky := parsePatterns(flaky)
+	if knownFlaky == nil {
+		knownFlaky = &testTrie{}
+	}
+	flags := &Flags{MaxServers: 1, Parallelism: 1}
+	if !refClient {
+		flags.ClientCommand = []string{"/nonexistent/verif-c08-client-under-test"}
+	}
+	if !refServer {
+		flags.ServerCommand = []string{"/nonexistent/verif-c08-server-under-test"}
+	}
+	pr := internal.NewPrinter(io.Discard)
+	_, err := run(cfg, knownFailing, knownFlaky, parsePatterns(runP), parsePatterns(skipP), suites, pr, pr, flags)
+	switch {
+	case err == nil:
+		return vS("ok")
+	case strings.HasPrefix(err.Error(), "error starting client"):
+		return vS("ok")
+	case strings.HasPrefix(err.Error(), "known failing: unmatched"):
+		return vS("unmatched-failing")
+	case strings.HasPrefix(err.Error(), "known flaky: unmatched"):
+		return vS("unmatched-flaky")
+	case strings.HasPrefix(err.Error(), "run patterns: unmatched"):
+		return vS("unmatched-run")
+	case strings.HasPrefix(err.Error(), "no-run patterns: unmatched"):
+		return vS("unmatched-skip")
+	case strings.Contains(err.Error(), "ambiguous"):
+		return vS("ambiguous")
+	default:
+		return vL(vS("bad-case"), vS(err.Error()))
 	}
 }
